@@ -16,6 +16,7 @@ def resChar : RelRes → Char
   | .bool false => 'F'
   | .unevaluated => 'N'
   | .unmodelled => '?'
+  | .error => 'E'
 
 /-- eq(a,b) eq(b,a) ne(a,b) ne(b,a) eq(a,a) eq(b,b) lt(a,b) gt(a,b) le(a,b) ge(a,b) lt(b,a) gt(b,a) -/
 def relVector (q : ValQuirks) (env : Env Float) (a b : V Float) : String :=
@@ -35,14 +36,17 @@ def numVector (q : CmpQuirks) (a b : Float) : String :=
 def quirksOf (qs : List String) : ValQuirks :=
   { numEqAsymmetric := qs.contains "numEqAsymmetric"
     convCmpOneWay := qs.contains "convCmpOneWay"
+    strEqSameQuotesRaw := qs.contains "strEqSameQuotesRaw"
+    cmpOldUnitRules := qs.contains "cmpOldUnitRules"
     mapEqOrdered := qs.contains "mapEqOrdered"
     mapEqOneSided := qs.contains "mapEqOneSided"
-    argListNeverEqual := qs.contains "argListNeverEqual" }
+    argListNeverEqual := qs.contains "argListNeverEqual"
+    ordCalcFlag := qs.contains "ordCalcFlag" }
 
 def handleC12 (quirks : List String) (op : String) (args : List String) : String :=
   let q := quirksOf quirks
   match op, args with
-  | "veq", ta :: tb :: conv :: _ | "seq", ta :: tb :: conv :: _ =>
+  | "veq", ta :: tb :: conv :: _ | "seq", ta :: tb :: conv :: _ | "seqin", ta :: tb :: conv :: _ =>
     match parseTerm fOfBits ta, parseTerm fOfBits tb with
     | some a, some b =>
       let env := parseEnv fOfBits conv
